@@ -27,17 +27,17 @@ def check_filelist(rep, prog, fm, cfg):
     n = 0
     for fn, dest in MODES.items():
         q = PT + fn
-        calls = [e for e in ev if e.kind == "call" and e.func == q and e.data[0] == gq]
+        calls = [e for e in ev if e.kind == "call" and q in e.stack and e.data[0] == gq]
         if not rep.check(len(calls) >= 1, rule, "%s takes its candidate files from getFileList" % fn, q, fn,
                          "%s does not obtain its file list from getFileList: the modes no longer look at the same candidates" % fn):
             continue
         for c in calls:
             n += 1
-            nxt = min([e.seq for e in ev if e.seq > c.seq and e.kind == "return" and e.func == gq] or [len(ev)])
+            nxt = min([e.seq for e in ev if e.seq > c.seq and e.kind == "return" and gq in e.stack] or [len(ev)])
             body = [e for e in ev if c.seq < e.seq <= nxt]
-            apps = [e for e in body if e.kind == "append" and e.func == gq]
-            sorts = [e for e in body if e.kind == "listmut" and e.func == gq]
-            walks = [L for L in fm.I.loops.values() if L.func == gq and L.events[0] > c.seq and L.events[1] <= nxt + 1]
+            apps = [e for e in body if e.kind == "append" and gq in e.stack]
+            sorts = [e for e in body if e.kind == "listmut" and gq in e.stack]
+            walks = [L for L in fm.I.loops.values() if gq in L.stack and L.events[0] > c.seq and L.events[1] <= nxt + 1]
             ok = len(apps) == 1 and len(apps[0].loops) >= 1
             why = "appends=%d" % len(apps)
             if ok:
@@ -72,7 +72,7 @@ def check_filelist(rep, prog, fm, cfg):
             rep.check(all(any(b == TRUE for b in L.breaks) for L in top) and bool(top), rule, "%s: only the top level of the directory is listed" % fn,
                       gq, "break", "getFileList descends into subdirectories")
             # iteration of the result in order
-            loops = [L for L in fm.I.loops.values() if L.func == q and L.events[0] > nxt]
+            loops = [L for L in fm.I.loops.values() if q in L.stack and L.events[0] > nxt]
             it_ok = False
             for L in loops:
                 it = L.iter
@@ -117,7 +117,7 @@ def check_pipelines(rep, prog, fm, cfg):
                   "decoding: %s" % (fn, names))
     # (b) count mode inline pipeline and single increment
     q = PT + "printPELCount"
-    seq = [e for e in fm.events if e.kind == "opaquecall" and e.func == q and e.data[0] in (PT + "generatePH", PT + "generateUH", PT + "considerPEL")]
+    seq = [e for e in fm.events if e.kind == "opaquecall" and q in e.stack and e.data[0] in (PT + "generatePH", PT + "generateUH", PT + "considerPEL")]
     names = [e.data[0].split(".")[-1] for e in seq]
     ok = names == ["generatePH", "generateUH", "considerPEL"]
     detail = str(names)
@@ -151,13 +151,13 @@ def check_pipelines(rep, prog, fm, cfg):
     for fn, dec in (("extractAllPELsData", "parsePEL"), ("listOption", "parsePELSummary"), ("parsePelFromPLID", "parsePELSummary"),
                     ("parsePelFromSRCID", "parsePELSummary")):
         ds = [e for e in fm.events if e.kind == "opaquecall" and e.data[0] == PT + dec and
-              (e.func == PT + fn or (fn == "listOption" and e.func == PT + "extractAndSummarizePEL" and
+              (PT + fn in e.stack or (fn == "listOption" and e.func == PT + "extractAndSummarizePEL" and
                                      any(L.func == PT + "listOption" for L in e.loops)))]
         ok = bool(ds) and all(d.data[1][1] == cfg for d in ds)
         rep.check(ok, rule, "%s decodes with the Config built from the options" % fn, PT + fn, dec, "%s does not filter with the options' Config" % fn)
     # list: one store per file keyed by its entry id, guarded only by 'decoded & selected'
     q = PT + "listOption"
-    st = [e for e in fm.events if e.kind == "dict_store" and e.func == q]
+    st = [e for e in fm.events if e.kind == "dict_store" and q in e.stack]
     ok = len(st) == 1 and st[0].loops
     if ok:
         key = fm.norm(st[0].data[1])
@@ -170,7 +170,7 @@ def check_pipelines(rep, prog, fm, cfg):
               "list mode does not add exactly one entry per decoded+selected file")
     # all: the document print guard
     q = PT + "extractAllPELsData"
-    docs = [e for e in fm.events if is_stdout_print(e) and e.func == q and e.loops and e.data[0] and
+    docs = [e for e in fm.events if is_stdout_print(e) and q in e.stack and e.loops and e.data[0] and
             any(isinstance(x, Op) and x.op == "call:" + PT + "parsePEL" for x in walk(e.data[0][0]))]
     rep.check(len(docs) == 1, rule, "all mode: one document print per selected file", q, "print(json_string, end='')",
               "all mode prints %d documents per file" % len(docs))
